@@ -122,16 +122,19 @@ Definition spec_affects (lo : lobs) (ro : obs) : bool :=
 (* verdict of a drift case.
    accept: the diff must be accepted (no error) - known finding F3 when the
    generator planted a header look-alike in a hunk body *)
-Definition check_drift (c : rcase) (co : cobs) (lo : lobs) (ro : obs)
+(* rel: the relational oracle of C02 judged by the harness - the content-rule
+   diagnostics of the diff-mode run equal those of a full scan of the same files
+   restricted to the blocks the diff-mode run selected *)
+Definition check_drift_rel (c : rcase) (co : cobs) (lo : lobs) (ro : obs)
                        (scanned : list str) (facts : list bfacts) (all : list (str * list fp))
-                       (f3 : bool) : N :=
+                       (f3 : bool) (rel : bool) : N :=
   let agree := full_agrees c co lo ro in
   let miss := full_missed c in
   let is_scanned := fun f => existsb (str_eqb f) scanned in
   match lo with
   | LObsList l =>
     let '(ok, known) := spec_flags is_scanned facts all l in
-    let ok2 := ok && spec_affects lo ro in
+    let ok2 := ok && spec_affects lo ro && rel in
     (* a header look-alike in a hunk body may also truncate the file's later hunks silently *)
     if f3 && negb ok2 then (if agree then 0 else 1) + 8 + 768
     else verdict agree ok2 miss + (if known && ok2 then 8 + 512 else 0)
@@ -139,6 +142,11 @@ Definition check_drift (c : rcase) (co : cobs) (lo : lobs) (ro : obs)
     (* the run failed although the diff is an ordinary git diff over healthy files *)
     if f3 then (if agree then 0 else 1) + 8 + 768 else verdict agree false miss
   end.
+
+Definition check_drift (c : rcase) (co : cobs) (lo : lobs) (ro : obs)
+                       (scanned : list str) (facts : list bfacts) (all : list (str * list fp))
+                       (f3 : bool) : N :=
+  check_drift_rel c co lo ro scanned facts all f3 true.
 
 Definition mkfp t a d src : fp := {| fp_t := t; fp_a := a; fp_d := d; fp_src := src |}.
 Definition mkbfacts f ts sf sl ef el ex : bfacts :=
